@@ -308,3 +308,18 @@ package decoder
 //@   ensures old(common.availBS(bits)) < 8 ==> e != nil
 //@   internal e == nil ==> (firstByte < 128 && r == firstByte && common.availBS(bits) == old(common.availBS(bits)) - 8) || (128 <= firstByte && firstByte < 192 && r >= 0 && r / 256 == firstByte - 128 && common.availBS(bits) == old(common.availBS(bits)) - 16) || (192 <= firstByte && firstByte < 224 && r / 65536 == firstByte - 192 && common.availBS(bits) == old(common.availBS(bits)) - 24)
 //@   internal e != nil && old(common.availBS(bits)) >= 24 ==> firstByte >= 224
+
+// ---------------------------------------------------------------- mirrored symbols (C09): Mirror transposes the module matrix
+//@ spec func swappedUpTo(a int, b int, x int, y int) bool = a != b && (min(a, b) < x || (min(a, b) == x && max(a, b) < y))
+//@ func (this *BitMatrixParser) Mirror()
+//@   property C09
+//@   let m = this.bitMatrix
+//@   requires m != nil && gozxing.wfBM(m) && m.width == m.height
+//@   ensures forall a int, b int :: gozxing.widx(m, a, b) && gozxing.widx(m, b, a) && 0 <= a && a < m.width && 0 <= b && b < m.width ==> gozxing.mget(m, a, b) == old(gozxing.mget(m, b, a))
+//@   modifies m.bits[*]
+//@   loop 0: invariant 0 <= x && x <= m.width && gozxing.wfBM(m) && m.width == m.height && this.bitMatrix == m
+//@   loop 0: invariant forall a int, b int :: gozxing.widx(m, a, b) && gozxing.widx(m, b, a) && 0 <= a && a < m.width && 0 <= b && b < m.width ==> gozxing.mget(m, a, b) == (swappedUpTo(a, b, x, 0) ? old(gozxing.mget(m, b, a)) : old(gozxing.mget(m, a, b)))
+//@   loop 0: decreases m.width - x
+//@   loop 1: invariant 0 <= x && x < m.width && x + 1 <= y && y <= m.width && gozxing.wfBM(m) && m.width == m.height && this.bitMatrix == m
+//@   loop 1: invariant forall a int, b int :: gozxing.widx(m, a, b) && gozxing.widx(m, b, a) && 0 <= a && a < m.width && 0 <= b && b < m.width ==> gozxing.mget(m, a, b) == (swappedUpTo(a, b, x, y) ? old(gozxing.mget(m, b, a)) : old(gozxing.mget(m, a, b)))
+//@   loop 1: decreases m.width - y
